@@ -512,6 +512,16 @@ func registerStrings(e *Engine) {
 	}
 	e.Intr["path/filepath.Join"] = fpJoin
 	e.Intr["path.Join"] = fpJoin
+	e.Intr["path/filepath.Abs"] = func(c *Call) []*State {
+		p := c.argTerm(0)
+		if !p.Const {
+			panic(unsupported("filepath.Abs with symbolic path"))
+		}
+		if filepath.IsAbs(p.S) {
+			return c.Return(Tuple{StrC(filepath.Clean(p.S)), Iface{}})
+		}
+		return c.Return(Tuple{StrC(filepath.Join("/cwd", p.S)), Iface{}})
+	}
 	e.Intr["path/filepath.IsAbs"] = func(c *Call) []*State { return c.Return(StrPrefixOf(StrC("/"), c.argTerm(0))) }
 	e.Intr["path/filepath.Base"] = func(c *Call) []*State {
 		s := c.argTerm(0)
